@@ -160,9 +160,10 @@ theorem expr_print_parse_state (fuel : Nat) (s : PState) (e : Expr) (k : List Ch
     wp (parseExpr fuel) s (fun e' s' => e' = e ∧ RT.At s' k ∧ RT.Same s s') (· = .fuel) :=
   (RT.rt_specs false fuel).1 s e k (fun h => by cases h) h hk hs
 
-/-- The extended class: additionally calls `f(arg, …)` whose name is a lower-case non-keyword
-identifier (what is printed without quotes and not changed by `strings.ToLower`), with arguments of
-the class or regex literals (`RT.rtOK true`). -/
+/-- The extended class: additionally variable references with a type cast (`::float`, `::integer`,
+`::unsigned`, `::string`, `::boolean`, `::field`, `::tag`) and calls `f(arg, …)` whose name is a
+lower-case non-keyword identifier (what is printed without quotes and not changed by
+`strings.ToLower`), with arguments of the class or regex literals (`RT.rtOK true`). -/
 def PrintableX (e : Expr) : Prop := RT.rtOK true e = true
 
 instance (e : Expr) : Decidable (PrintableX e) := inferInstanceAs (Decidable (RT.rtOK true e = true))
@@ -170,9 +171,9 @@ instance (e : Expr) : Decidable (PrintableX e) := inferInstanceAs (Decidable (RT
 /-- **C03 (re-parsing, with calls).** The same for the extended class. Partial in one respect: the
 lower-casing table shipped with the input (the model's stand-in for `unicode.ToLower`) must have
 entries for non-ASCII runes only — which is what the harness sends; the parser lower-cases every
-call name through it. Still excluded from the class (see notes/C03.md): call names that need quotes
-or contain capitals (known finding / normalisation), `distinct`, type casts `::type`, wildcards,
-number and duration literals, and the ungrouped `-1 * x` operand of the known finding. -/
+call name and type name through it. Still excluded from the class (see notes/C03.md): call names
+that need quotes or contain capitals (known finding / normalisation), `distinct`, wildcards, number
+and duration literals, and the ungrouped `-1 * x` operand of the known finding. -/
 theorem expr_print_parse_partial (e : Expr) (h : PrintableX e) (params : List (Str × BoundValue))
     (lower : List (Char × Char)) (hl : ∀ p ∈ lower, 128 ≤ p.1.toNat) :
     parseExprText e.print params lower = .ok e :=
@@ -216,6 +217,12 @@ example : Expr.print (.binary .GT
     "percentile(mean(value), 95) > count(/^cpu.*/) + now()".toList := by decide
 
 example : ∀ p ∈ [('Ä', 'ä')], 128 ≤ p.1.toNat := by decide
+
+-- typed references
+example : PrintableX (.binary .LT (.call "max".toList [.varRef "v".toList .Float, .varRef "t 1".toList .Tag])
+    (.varRef "n".toList .AnyField)) := by decide
+example : Expr.print (.binary .LT (.call "max".toList [.varRef "v".toList .Float, .varRef "t 1".toList .Tag])
+    (.varRef "n".toList .AnyField)) = "max(v::float, \"t 1\"::tag) < n::field".toList := by decide
 
 -- the excluded region: the tree of the known finding is not printable
 example : ¬ Printable (.binary .DIV (.varRef ['b'] .Unknown) (.binary .MUL (.integer (-1)) (.varRef ['a'] .Unknown))) := by
